@@ -24,61 +24,66 @@ struct Target {
     calls: &'static [(&'static str, &'static str)], // rust callee / method name -> gallina function
     deps: &'static [&'static str],                  // other targets this one needs
     imports: &'static str,                          // further modules the generated file needs
+    ret_muts: bool,                                 // return the final value of the `&mut Vec` parameters with the result
 }
 
 const TARGETS: &[Target] = &[
     Target { name: "side_partial_cmp", file: "src/bounds/side.rs", impl_trait: Some("PartialOrd"), impl_self: Some("Side"),
-             func: "partial_cmp", calls: &[], deps: &[], imports: "" },
+             func: "partial_cmp", calls: &[], deps: &[], imports: "", ret_muts: false },
     Target { name: "ub_partial_cmp", file: "src/bounds/userbounds.rs", impl_trait: Some("PartialOrd"), impl_self: Some("UserBounds"),
-             func: "partial_cmp", calls: &[("partial_cmp", "gen_side_partial_cmp")], deps: &["side_partial_cmp"], imports: "" },
+             func: "partial_cmp", calls: &[("partial_cmp", "gen_side_partial_cmp")], deps: &["side_partial_cmp"], imports: "", ret_muts: false },
     Target { name: "ub_matches", file: "src/bounds/userbounds.rs", impl_trait: Some("UserBoundsTrait"), impl_self: Some("UserBounds"),
-             func: "matches", calls: &[], deps: &[], imports: "" },
+             func: "matches", calls: &[], deps: &[], imports: "", ret_muts: false },
     Target { name: "ub_try_into_range", file: "src/bounds/userbounds.rs", impl_trait: Some("UserBoundsTrait"), impl_self: Some("UserBounds"),
-             func: "try_into_range", calls: &[], deps: &[], imports: "" },
+             func: "try_into_range", calls: &[], deps: &[], imports: "", ret_muts: false },
     Target { name: "complement_std_range", file: "src/bounds/userbounds.rs", impl_trait: None, impl_self: None,
-             func: "complement_std_range", calls: &[], deps: &[], imports: "" },
+             func: "complement_std_range", calls: &[], deps: &[], imports: "", ret_muts: false },
     Target { name: "ub_new", file: "src/bounds/userbounds.rs", impl_trait: Some("UserBoundsTrait"), impl_self: Some("UserBounds"),
-             func: "new", calls: &[], deps: &[], imports: "" },
+             func: "new", calls: &[], deps: &[], imports: "", ret_muts: false },
     Target { name: "ub_from_range", file: "src/bounds/userbounds.rs", impl_trait: Some("From"), impl_self: Some("UserBounds"),
-             func: "from", calls: &[("UserBounds::new", "gen_ub_new")], deps: &["ub_new"], imports: "" },
+             func: "from", calls: &[("UserBounds::new", "gen_ub_new")], deps: &["ub_new"], imports: "", ret_muts: false },
     Target { name: "ub_unpack", file: "src/bounds/userbounds.rs", impl_trait: Some("UserBoundsTrait"), impl_self: Some("UserBounds"),
-             func: "unpack", calls: &[("UserBounds::new", "gen_ub_new"), ("try_into_range", "gen_ub_try_into_range")], deps: &["ub_new", "ub_try_into_range"], imports: "" },
+             func: "unpack", calls: &[("UserBounds::new", "gen_ub_new"), ("try_into_range", "gen_ub_try_into_range")], deps: &["ub_new", "ub_try_into_range"], imports: "", ret_muts: false },
     Target { name: "ub_complement", file: "src/bounds/userbounds.rs", impl_trait: Some("UserBoundsTrait"), impl_self: Some("UserBounds"),
              func: "complement", calls: &[("try_into_range", "gen_ub_try_into_range"), ("complement_std_range", "gen_complement_std_range"), ("into", "gen_ub_from_range")],
-             deps: &["ub_try_into_range", "complement_std_range", "ub_from_range"], imports: "" },
+             deps: &["ub_try_into_range", "complement_std_range", "ub_from_range"], imports: "", ret_muts: false },
     Target { name: "ubl_bounds_only", file: "src/bounds/userboundslist.rs", impl_trait: None, impl_self: Some("UserBoundsList"),
-             func: "get_userbounds_only", calls: &[], deps: &[], imports: "" },
+             func: "get_userbounds_only", calls: &[], deps: &[], imports: "", ret_muts: false },
     Target { name: "ubl_is_sortable", file: "src/bounds/userboundslist.rs", impl_trait: None, impl_self: Some("UserBoundsList"),
-             func: "is_sortable", calls: &[("get_userbounds_only", "gen_ubl_bounds_only")], deps: &["ubl_bounds_only"], imports: "" },
+             func: "is_sortable", calls: &[("get_userbounds_only", "gen_ubl_bounds_only")], deps: &["ubl_bounds_only"], imports: "", ret_muts: false },
     Target { name: "ubl_is_sorted", file: "src/bounds/userboundslist.rs", impl_trait: None, impl_self: Some("UserBoundsList"),
-             func: "is_sorted", calls: &[("get_userbounds_only", "gen_ubl_bounds_only"), ("<=UserBounds", "gen_ub_partial_cmp")], deps: &["ubl_bounds_only", "ub_partial_cmp"], imports: "" },
+             func: "is_sorted", calls: &[("get_userbounds_only", "gen_ubl_bounds_only"), ("<=UserBounds", "gen_ub_partial_cmp")], deps: &["ubl_bounds_only", "ub_partial_cmp"], imports: "", ret_muts: false },
     Target { name: "ubl_has_negative_indices", file: "src/bounds/userboundslist.rs", impl_trait: None, impl_self: Some("UserBoundsList"),
-             func: "has_negative_indices", calls: &[("get_userbounds_only", "gen_ubl_bounds_only")], deps: &["ubl_bounds_only"], imports: "" },
+             func: "has_negative_indices", calls: &[("get_userbounds_only", "gen_ubl_bounds_only")], deps: &["ubl_bounds_only"], imports: "", ret_muts: false },
     Target { name: "ubl_is_forward_only", file: "src/bounds/userboundslist.rs", impl_trait: None, impl_self: Some("UserBoundsList"),
              func: "is_forward_only", calls: &[("is_sortable", "gen_ubl_is_sortable"), ("is_sorted", "gen_ubl_is_sorted"), ("has_negative_indices", "gen_ubl_has_negative_indices")],
-             deps: &["ubl_is_sortable", "ubl_is_sorted", "ubl_has_negative_indices"], imports: "" },
+             deps: &["ubl_is_sortable", "ubl_is_sorted", "ubl_has_negative_indices"], imports: "", ret_muts: false },
     Target { name: "side_from_str", file: "src/bounds/side.rs", impl_trait: Some("FromStr"), impl_self: Some("Side"),
-             func: "from_str", calls: &[], deps: &[], imports: "Model.BoundsParse Tie.RsStr" },
+             func: "from_str", calls: &[], deps: &[], imports: "Model.BoundsParse Tie.RsStr", ret_muts: false },
     Target { name: "ub_from_str", file: "src/bounds/userbounds.rs", impl_trait: Some("FromStr"), impl_self: Some("UserBounds"),
              func: "from_str", calls: &[("Side::from_str", "gen_side_from_str"), ("UserBounds::new", "gen_ub_new")], deps: &["side_from_str", "ub_new"],
-             imports: "Model.BoundsParse Tie.RsStr" },
+             imports: "Model.BoundsParse Tie.RsStr", ret_muts: false },
     Target { name: "ubl_unpack", file: "src/bounds/userboundslist.rs", impl_trait: None, impl_self: Some("UserBoundsList"),
-             func: "unpack", calls: &[("unpack", "gen_ub_unpack"), ("into", "model_from_vec")], deps: &["ub_unpack"], imports: "Tie.RsList" },
+             func: "unpack", calls: &[("unpack", "gen_ub_unpack"), ("into", "model_from_vec")], deps: &["ub_unpack"], imports: "Tie.RsList", ret_muts: false },
     Target { name: "ubl_complement", file: "src/bounds/userboundslist.rs", impl_trait: None, impl_self: Some("UserBoundsList"),
-             func: "complement", calls: &[("complement", "gen_ub_complement"), ("into", "model_from_vec")], deps: &["ub_complement"], imports: "Tie.RsList" },
+             func: "complement", calls: &[("complement", "gen_ub_complement"), ("into", "model_from_vec")], deps: &["ub_complement"], imports: "Tie.RsList", ret_muts: false },
     Target { name: "cut_bytes", file: "src/cut_bytes.rs", impl_trait: None, impl_self: None,
              func: "cut_bytes", calls: &[("try_into_range", "gen_ub_try_into_range")], deps: &["ub_try_into_range"],
-             imports: "Model.Scan Model.Regex Model.Opt Tie.RsOpt Tie.RsStr Tie.RsList" },
+             imports: "Model.Scan Model.Regex Model.Opt Tie.RsOpt Tie.RsStr Tie.RsList", ret_muts: false },
     Target { name: "fast_output_parts", file: "src/fast_lane.rs", impl_trait: None, impl_self: None,
              func: "output_parts", calls: &[("try_into_range", "gen_ub_try_into_range")], deps: &["ub_try_into_range"],
-             imports: "Model.Scan Model.Regex Model.Opt Tie.RsOpt Tie.RsStr Tie.RsList" },
+             imports: "Model.Scan Model.Regex Model.Opt Tie.RsOpt Tie.RsStr Tie.RsList", ret_muts: false },
     Target { name: "fast_cut_record", file: "src/fast_lane.rs", impl_trait: None, impl_self: None,
              func: "cut_str_fast_lane", calls: &[("output_parts", "gen_fast_output_parts"), ("trim", "model_trim")], deps: &["fast_output_parts"],
-             imports: "Model.Scan Model.Regex Model.Opt Tie.RsOpt Tie.RsStr Tie.RsList" },
+             imports: "Model.Scan Model.Regex Model.Opt Tie.RsOpt Tie.RsStr Tie.RsList", ret_muts: false },
+    Target { name: "fill_fields", file: "src/cut_str.rs", impl_trait: None, impl_self: None,
+             func: "fill_with_fields_locations", calls: &[], deps: &[], imports: "Model.Scan Tie.RsStr Tie.RsScan", ret_muts: true },
+    Target { name: "compress_delimiter", file: "src/cut_str.rs", impl_trait: None, impl_self: None,
+             func: "compress_delimiter", calls: &[], deps: &[], imports: "Model.Scan Tie.RsStr Tie.RsScan", ret_muts: true },
     Target { name: "fast_try_from", file: "src/fast_lane.rs", impl_trait: Some("TryFrom"), impl_self: Some("FastOpt"),
-             func: "try_from", calls: &[], deps: &[], imports: "Model.Scan Model.Regex Model.Opt Tie.RsOpt" },
+             func: "try_from", calls: &[], deps: &[], imports: "Model.Scan Model.Regex Model.Opt Tie.RsOpt", ret_muts: false },
     Target { name: "stream_try_from", file: "src/stream.rs", impl_trait: Some("TryFrom"), impl_self: Some("StreamOpt"),
-             func: "try_from", calls: &[("ForwardBounds::try_from", "model_forward_try_from")], deps: &[], imports: "Model.Scan Model.Regex Model.Opt Model.Stream Tie.RsOpt" },
+             func: "try_from", calls: &[("ForwardBounds::try_from", "model_forward_try_from")], deps: &[], imports: "Model.Scan Model.Regex Model.Opt Model.Stream Tie.RsOpt", ret_muts: false },
 ];
 
 #[derive(Clone, PartialEq, Debug)]
@@ -286,6 +291,7 @@ impl Cx {
                 "clone" | "into_iter" | "iter" | "as_bytes" | "as_ref" | "to_owned" | "as_deref" => self.ty(&m.receiver),
                 "len" => Ty::Usize,
                 "split_once" => Ty::Opt(Box::new(Ty::Pair(Box::new(Ty::Str), Box::new(Ty::Str)))),
+                "find_iter" => Ty::List(Box::new(Ty::Usize)),
                 "find" => Ty::Opt(Box::new(Ty::Usize)),
                 "is_empty" => Ty::Bool,
                 "into" | "or_else" => self.ty(&m.receiver),
@@ -381,7 +387,7 @@ impl Cx {
                     return self.pure(&m.receiver);
                 }
                 if name == "into" && matches!(self.ty(&m.receiver), Ty::Str | Ty::Byte) { return self.pure(&m.receiver); }
-                if ["expect", "unwrap", "collect", "map", "try_into", "into", "for_each", "any", "flat_map", "try_for_each", "write_all", "push", "clear"].contains(&name.as_str()) { return Ok(None); }
+                if ["expect", "unwrap", "collect", "map", "try_into", "into", "for_each", "any", "flat_map", "try_for_each", "write_all", "push", "clear", "extend"].contains(&name.as_str()) { return Ok(None); }
                 let recv = match self.pure(&m.receiver)? { Some(x) => x, None => return Ok(None) };
                 let mut args = vec![];
                 for a in &m.args { match self.pure(a)? { Some(x) => args.push(x), None => return Ok(None) } }
@@ -392,6 +398,7 @@ impl Cx {
                     ("clone", 0) | ("into_iter", 0) | ("iter", 0) | ("as_bytes", 0) | ("as_ref", 0) | ("to_owned", 0) | ("as_deref", 0) => recv,
                     ("len", 0) => format!("(Z.of_nat (length {}))", recv),
                     ("is_empty", 0) => format!("(match {} with [] => true | _ => false end)", recv),
+                    ("find_iter", 1) => format!("(find_iter_z {} {})", args[0], recv),
                     ("as_slice", 0) => recv,
                     ("split_once", 1) => format!("(str_split_once {} {})", args[0], recv),
                     ("find", 1) => format!("(str_find {} {})", args[0], recv),
@@ -676,6 +683,12 @@ impl Cx {
                 let c = self.coqname(&name);
                 self.tr(&b.right, &format!("(fun {} => (bind ({}_{} {} {}) (fun {} => (let {} := {} in ({} tt)))))", y, pre, opn, c, y, v, c, v, k))
             }
+            Expr::MethodCall(m) if m.method == "extend" && m.args.len() == 1 && matches!(&*m.receiver, Expr::Path(p) if self.muts.contains(&path_str(&p.path))) => {
+                let name = match &*m.receiver { Expr::Path(p) => path_str(&p.path), _ => unreachable!() };
+                let c = self.coqname(&name);
+                let v = self.fresh("v");
+                self.tr(&m.args[0], &format!("(fun {} => (let {} := ({} ++ {}) in ({} tt)))", v, c, c, v, k))
+            }
             Expr::MethodCall(m) if (m.method == "clear" || m.method == "push") && matches!(&*m.receiver, Expr::Path(p) if self.muts.contains(&path_str(&p.path))) => {
                 let name = match &*m.receiver { Expr::Path(p) => path_str(&p.path), _ => unreachable!() };
                 let c = self.coqname(&name);
@@ -800,7 +813,7 @@ impl Cx {
                 self.tr(&m.receiver, &res)
             }
             Expr::Match(m) => self.tr_match(m, k),
-            Expr::Return(r) => match &r.expr { Some(e) => { let k = self.retk(); self.tr(e, &k) }, None => Ok("(Ret tt)".into()) },
+            Expr::Return(r) => match &r.expr { Some(e) => { let k = self.retk(); self.tr(e, &k) }, None => Ok(format!("({} tt)", self.retk())) },
             Expr::Try(t) => {
                 let (r, v) = (self.fresh("r"), self.fresh("v"));
                 // stdout.write_all(x)?  appends to the output accumulated so far (writes do not fail here: C14's business)
@@ -1197,6 +1210,14 @@ fn translate(t: &Target, sig: &Signature, block: &Block, ret_tys: &HashMap<Strin
         let k = cx.retk();
         let body = cx.stmts(&block.stmts, &k)?;
         return Ok((format!("Definition gen_{}{} : rs ({} * bytes) :=\n  ({}{}).\n", t.name, params, cx.ret_ty, inits, body), rty));
+    }
+    if t.ret_muts && !cx.muts.is_empty() {
+        cx.inline_k = true;
+        let outs = cx.muts.iter().map(|w| ident(w)).collect::<Vec<_>>().join(", ");
+        cx.retk_stack.push(format!("(fun x => Ret (x, {}))", outs));
+        let k = cx.retk();
+        let body = cx.stmts(&block.stmts, &k)?;
+        return Ok((format!("Definition gen_{}{} :=\n  ({}).\n", t.name, params, body), rty));
     }
     let k = cx.retk();
     let body = cx.stmts(&block.stmts, &k)?;
